@@ -248,6 +248,21 @@ where
     }
 }
 
+/// type aliases: the name, the layout the type reports (trait functions), and its inherent INT_NBITS / FRAC_NBITS constants
+fn alias<A: Fx>(c: &mut Ctx, name: &str, int_nbits: u32, frac_nbits: u32) {
+    head(c, "alias");
+    c.wr.raw(",\"name\":");
+    c.wr.bytes(name.as_bytes());
+    c.wr.raw(",\"L\":");
+    c.wr.lay(Lay { s: A::min_value() < A::from_bits(A::from_raw(0).to_bits()), w: (std::mem::size_of::<A>() * 8) as u32, f: A::frac_nbits() });
+    c.wr.raw(",\"ibits\":");
+    c.wr.raw(&int_nbits.to_string());
+    c.wr.raw(",\"fbits\":");
+    c.wr.raw(&frac_nbits.to_string());
+    c.wr.raw("}");
+    c.wr.end();
+}
+macro_rules! aliases { ($c:expr; $($t:ident)*) => { $( alias::<$t>($c, stringify!($t), <$t>::INT_NBITS, <$t>::FRAC_NBITS); )* } }
 macro_rules! each { ($f:ident, $c:expr; $($t:ident)*) => { $( $f::<$t>($c); )* } }
 macro_rules! each_to { ($f:ident, $b:ty, $c:expr; $($t:ident)*) => { $( $f::<$t, $b>($c); )* } }
 macro_rules! each_from { ($f:ident, $a:ty, $c:expr; $($t:ident)*) => { $( $f::<$a, $t>($c); )* } }
@@ -313,6 +328,9 @@ fn main() {
         spread!(each_from!(az_static, U8F0, &mut c;));
         spread!(each_from!(az_static, I4F4, &mut c;));
         spread!(each_from!(az_static, U32F32, &mut c;));
+    }
+    if c.on("alias") {
+        for_all_layouts!(aliases!(&mut c;));
     }
     c.wr.flush();
 }
